@@ -372,6 +372,8 @@ def run_case(lf, table, scratch, cats=False, kv=False):
         for i, e, g in bad[:2]:
             res["problems"].append(("flba-trailing-nul" if nul else "date-beyond-ns-range" if far else "decode",
                                     "column %s (%s) row %d: file encodes %r, fastparquet returns %r" % (l["name"], l["tag"], i, e, g)))
+    if kv:
+        res["alloc_obs"] = alloc_observations(lf, table, df)
     if res["problems"]:
         res["outcome"] = "differs"
     # model of the chunk reader against what the real reader returned (cell by cell, physical bit patterns)
@@ -393,6 +395,76 @@ def run_case(lf, table, scratch, cats=False, kv=False):
     res.pop("fp_cells", None)
     res.pop("chunk_model", None)
     return res
+
+
+def alloc_observations(lf, table, df):
+    """for the timestamp columns of a file with a 'pandas' entry: (recorded unit | None, stored tag, stored count, unit of the column
+    the real reader returned, count in that unit) for up to 3 non-NULL cells per column - the input of the Impl/RAlloc.v tie"""
+    import re
+    import numpy as np
+    import pandas as pd
+    rec = {}
+    for k, v in lf.get("kv") or []:
+        if k == "pandas":
+            for c in json.loads(v).get("columns", []):
+                m = re.match(r"datetime64\[(\w+)", c.get("numpy_type") or "")
+                rec[c.get("name")] = m.group(1) if m else None
+    out = []
+    for l in lf["leaves"]:
+        if l["tag"] not in ("ts_ms", "ts_us", "ts_ns") or l["name"] not in df.columns:
+            continue
+        s = df[l["name"]]
+        if isinstance(s.dtype, pd.DatetimeTZDtype):
+            s = s.dt.tz_convert("UTC").dt.tz_localize(None)
+        if getattr(s.dtype, "kind", "O") != "M":
+            continue
+        arr = s.values
+        unit = np.datetime_data(arr.dtype)[0]
+        iv = arr.view("int64")
+        cells = table[l["name"]]
+        if len(cells) != len(iv):
+            continue
+        k = 0
+        for e, g in zip(cells, iv):
+            if e is None:
+                continue
+            sv = e - (1 << 64) if e >> 63 else e
+            if sv == -(1 << 63):
+                continue
+            out.append([rec.get(l["name"]), l["tag"], sv, unit, int(g)])
+            k += 1
+            if k >= 3:
+                break
+    return out
+
+
+def alloc_tie(ctx, obs):
+    """Impl/RAlloc.read_ts (unit from the entry, numpy cast on assignment) evaluated in coqc = unit and count of the column the
+    real reader returned"""
+    U = {"s": "WS", "ms": "WMs", "us": "WUs", "ns": "WNs"}
+    T = {"ts_ms": "TMs", "ts_us": "TUs", "ts_ns": "TNs"}
+    seen, todo = set(), []
+    for o in obs:
+        key = (o[0], o[1], o[2])
+        if key in seen or o[0] not in (None, "s", "ms", "us", "ns"):
+            continue
+        seen.add(key)
+        todo.append(o)
+    todo = todo[:120]
+    if not todo:
+        return
+    req = "From Coq Require Import ZArith.\nFrom Pq Require Import Impl.RConvert Impl.WConvert Impl.RAlloc.\nOpen Scope Z_scope."
+    exprs = ["read_ts %s %s (%d)" % ("None" if o[0] is None else "(Some %s)" % U[o[0]], T[o[1]], o[2]) for o in todo]
+    outs = C.vm_eval(req, exprs, "(wunit * Z)%type", os.path.join(ctx.scratch, "alloc"), tag="alloc")
+    for o, r in zip(todo, outs):
+        try:
+            p = C.parse_coq(r)
+            mu = p[0][0] if isinstance(p[0], tuple) else p[0]
+            model = [{"WS": "s", "WMs": "ms", "WUs": "us", "WNs": "ns"}[mu], int(p[1])]
+        except Exception as e:    # noqa
+            model = ["unparsed", str(r)[:80]]
+        ctx.correspondence("Impl/RAlloc.read_ts (unit recorded by the 'pandas' entry, numpy cast on assignment) = unit and count of the "
+                           "timestamp column the real reader returns", {"recorded": o[0], "stored": o[1], "value": o[2]}, model, [o[3], o[4]])
 
 
 def leaf_tag(l):
@@ -939,6 +1011,8 @@ def run(ctx):
     ctx.trusted = TRUSTED
     ctx.coq_file(os.path.join(C.COQ, "props", "C03.v"))
     ctx.coq_file(os.path.join(C.COQ, "props", "C03_kv.v"))
+    ctx.coq_file(os.path.join(C.COQ, "props", "C03_guard.v"))
+    ctx.coq_file(os.path.join(C.COQ, "props", "C03_alloc.v"))
     bad = C.hygiene()
     ctx.obligation("hygiene: no Admitted/Axiom/Parameter/... in coq/", not bad, "; ".join(bad))
     diffs = [d for d in C.pyx_vs_c() if d[0] == "cencoding" or d[0] == "speedups"]
@@ -962,6 +1036,7 @@ def run(ctx):
     _init()
     results = run_robust(jobs, ctx.scratch)
     digests = {}
+    alloc_tie(ctx, [o for res in results for o in (res.get("alloc_obs") or [])])
     for (lf, table, exp), res in zip(jobs, results):
         if exp.get("file"):
             case = {"expect": exp}
